@@ -51,3 +51,28 @@ _m("C20",
    "partition parts and originals left behind are drained at the end to show independence.  Non-trivial: the ring "
    "buffer wrapped with an entry pending across the wrap, or a copy/partition followed by further operations.",
    _COMMON + ["histories are bounded by the stated length", "grid steps are exactly representable (property's own precondition)"])
+
+_m("C03",
+   "Hypothesis builds models with 2..5 species declared in a random permutation (unused extras included), 1..5 "
+   "reactions with 0..4 reactants / products (repeats, catalysts, empty sides), every propensity type, optional "
+   "delayed reactants / products with each delay family; S and S_delay are counted from the spec and compared with "
+   "py_get_update_array / py_get_delay_update_array by species name; the derivative reported by the plain and the safe "
+   "interface at 1..4 states x times must equal sum_r (S+S_d) x (the model's own rate r); one case in five removes "
+   "the value of a named parameter and requires construction / initialisation / interface creation to raise. "
+   "Non-trivial: a repeated species, a species on both sides, a delayed part or a declaration order different from "
+   "first-use order, or a missing-value case.",
+   _COMMON)
+
+_m("C02",
+   "Hypothesis generates expression trees of depth <= 5 over + - * / ^ exp log abs Heaviside min max, numbers "
+   "(integers, decimals, e-notation), species, parameters, t and volume, with identifiers that include underscores, "
+   "digits, the sympy-clash letters C O Q N I E S (as species or parameters) and the legacy _k / |k spelling; the tree "
+   "is printed (full or minimal parentheses, ^ or **, Heaviside or heaviside, varied spacing) and evaluated at 5 "
+   "points through parse_expression (py_evaluate, py_volume_evaluate), a general propensity inside a Model, an "
+   "assignment rule and a StateDependentVolume growth law; oracle = the tree evaluated in 50-digit mpmath, compared "
+   "to 1e-8 x max(1, largest intermediate) at points in the finite domain (|Heaviside argument| > 1e-6, "
+   "intermediates < 1e8).  One case in three injects an unknown name (must be rejected) or an unsupported "
+   "construct (rejected, or still the right value).  The printer itself is cross-checked against Python's parser. "
+   "Non-trivial: depth >= 2 with one of min/max/abs/log/exp/Heaviside/t/volume/non-integer power/clash name/legacy "
+   "spelling and at least one point in the domain, or any injection case.",
+   _COMMON + ["a loud rejection of a valid expression is allowed by the statement and only counted"])
